@@ -14,6 +14,8 @@ import BleveModel.Drv.Snap
 import BleveModel.Drv.C04
 import BleveModel.Drv.C03
 import BleveModel.Drv.C12
+import BleveModel.Drv.C14
+import BleveModel.Drv.C11
 
 open Bleve.Proto
 
@@ -49,6 +51,8 @@ def main (args : List String) : IO UInt32 := do
   | ["c13"] => loopS stdin stdout ({} : Bleve.IndexSpec.Spec) Bleve.Drv.C13.step; stdout.flush; return 0
   | ["c03"] => loopS stdin stdout ({} : Bleve.Drv.C03.S) Bleve.Drv.C03.step; stdout.flush; return 0
   | ["c12"] => loopS stdin stdout ({} : Bleve.Drv.C12.S) Bleve.Drv.C12.step; stdout.flush; return 0
+  | ["c14"] => loopS stdin stdout ({} : Bleve.Drv.C04.S) Bleve.Drv.C14.step; stdout.flush; return 0
+  | ["c11"] => loopS stdin stdout ({} : Bleve.Drv.C11.S) Bleve.Drv.C11.step; stdout.flush; return 0
   | ["c04"] => loopS stdin stdout ({} : Bleve.Drv.C04.S) Bleve.Drv.C04.step; stdout.flush; return 0
   | ["c15"] => loopS stdin stdout ({} : Bleve.Drv.C15.S) Bleve.Drv.C15.step; stdout.flush; return 0
   | _ => IO.eprintln "usage: drv <driver>"; return 2
